@@ -345,6 +345,27 @@ def run_meta(desc):
                     "rootfinder:default": None, "minimize:gd": 2e-3}.get(fname, 2e-4 if F.iterative else 1e-6)
             obs.check(jtol is None or err <= jtol * jsc, "jvp_trick:" + mech,
                       "Jacobian-vector product by double backward (zero first-level cotangent) differs from the central finite difference of the forward by %.3e (scale %.2e)" % (err, jsc))
+            # (f) Hessian-vector product of a loss that is NONLINEAR in the output (the cotangent then depends on the leaves) by double
+            # backward vs central finite difference of the first-order gradient
+            def nl_grad(lvx, create):
+                o = forward(lvx)
+                Lnl = sum(torch.exp(0.3 * x).sum() + 0.5 * (x * x).sum() for x in o)
+                lvs = [lvx[k] for k in funcs.LEAF_NAMES]
+                gx = torch.autograd.grad(Lnl, lvs, create_graph=create, allow_unused=True)
+                return [torch.zeros_like(l) if gi is None else gi for gi, l in zip(gx, lvs)], lvs
+            if jtol is not None:
+                lvh = funcs.clone_leaves(lv0)
+                gh, lvs = nl_grad(lvh, True)
+                Hs = sum((gi * u).sum() for gi, u in zip(gh, U) if gi.requires_grad)
+                hv = torch.autograd.grad(Hs, lvs, allow_unused=True) if isinstance(Hs, torch.Tensor) and Hs.requires_grad else [None] * len(lvs)
+                hv = [torch.zeros_like(l) if h is None else h.detach() for h, l in zip(hv, lvs)]
+                gp, _ = nl_grad(lp, False)
+                gm, _ = nl_grad(lm, False)
+                hfd = [(a.detach() - b.detach()) / (2 * eps) for a, b in zip(gp, gm)]
+                hsc = max(1.0, max(float(x.abs().max()) for x in hfd))
+                err = max(float((a - b).abs().max()) for a, b in zip(hv, hfd))
+                obs.check(err <= 20 * jtol * hsc, "hvp_nonlinear_loss:" + mech,
+                          "Hessian-vector product of a loss nonlinear in the output (double backward) differs from the finite difference of the gradient by %.3e (scale %.2e)" % (err, hsc))
     except Exception as e:
         from vf.common import last_repo_frame
         if last_repo_frame(e.__traceback__) is None and not isinstance(e, RuntimeError):
@@ -352,7 +373,7 @@ def run_meta(desc):
         obs.exc_violation("meta:" + mech, e)
         obs.nontrivial = True
         return obs.result()
-    obs.count("metamorphic_relations_checked", 5)
+    obs.count("metamorphic_relations_checked", 6)
     obs.nontrivial = True
     return obs.result()
 
